@@ -5,7 +5,7 @@ From QCE Require Import Base.Prelude Core.Model Core.Run.
 From Gen Require Import Ident Classes.
 Open Scope Z_scope.
 
-Record case := {
+Record ccase := {
   k_prog : list cmd;
   k_env : denv;
   k_orig : option obs;        (* operations of the circuit *)
@@ -19,7 +19,7 @@ Definition ops_eqb (a : list oentry) (o : option obs) : bool :=
   match o with None => true | Some b => list_eqb oentry_eqb a (o_ops b) end.
 Definition model_ops (env : denv) (ns : list node) : list oentry := map (entry_to_o env) (listing env ns).
 
-Definition agree (c : case) : bool :=
+Definition agree_c (c : ccase) : bool :=
   let env := k_env c in
   let ns := run_prog env (k_prog c) in
   ops_eqb (model_ops env ns) (k_orig c)
@@ -51,5 +51,15 @@ Definition faithful (a b : option obs) : bool :=
   | _, _ => true
   end.
 
-Definition spec_ok (c : case) : bool :=
+Definition spec_c (c : ccase) : bool :=
   faithful (k_orig c) (k_copy c) && faithful (k_orig c) (k_nested c) && k_copy_unchanged c && k_orig_unchanged c.
+
+(* a case is a generated build program (model + specification) or a program the Core model does not express — a relation to a
+   GROUP of operations with an arbitrary relation type, built with MultiRelationLink — judged by the specification alone *)
+Inductive case := KCore (c : ccase) | KSpecOnly (orig copy nested : option obs) (copy_unchanged orig_unchanged : bool).
+Definition agree (c : case) : bool := match c with KCore x => agree_c x | KSpecOnly _ _ _ _ _ => true end.
+Definition spec_ok (c : case) : bool :=
+  match c with
+  | KCore x => spec_c x
+  | KSpecOnly o cp n cu ou => faithful o cp && faithful o n && cu && ou
+  end.
